@@ -16,7 +16,8 @@ RULE = ('cases = (prior memory, start address, data) for Game.write_cart_data ag
         'or spans >= 2 regions or is an overflow that must be rejected; distinct by (start, len, '
         'hash of data and prior memory).'
         " Histories also replace section objects (g.map = Map.from_bytes(...), as the loaders and build do) and copy memory inside the cart (data = the live buffer another region's to_bytes() returns); a twin cart made with from_bytes(to_bytes()) must keep its memory."
-        ' Lengths include those of other PICO-8 memory images (0x7fff, 0x8000, 0x8001, 0x10000) at start addresses 0, 1, 0x2000, 0x4200, 0x42ff, 0x4300.')
+        ' Lengths include those of other PICO-8 memory images (0x7fff, 0x8000, 0x8001, 0x10000) at start addresses 0, 1, 0x2000, 0x4200, 0x42ff, 0x4300.'
+        " Origin from_p8_empty_sections: carts loaded from a .p8 whose gff/map/music (and sometimes gfx) sections are absent or header-only; the cart's label image must be unchanged by every write (inplace carts are make_empty_game() as it comes).")
 ASSUMPTIONS = ['memory map gfx 0x0000, map 0x2000, gff 0x3000, music 0x3100, sfx 0x3200, end 0x4300 '
                '(PICO-8 manual)', 'start addresses are 0x0000..0x42ff (or beyond, for the reject clause); '
                'negative addresses are out of contract and not generated']
@@ -374,7 +375,8 @@ def vacuity(total, tier):
     msgs = []
     for lab in ('starts_on_boundary', 'ends_on_boundary', 'spans_regions', 'overflow', 'origin_from_p8', 'origin_from_png',
                 'origin_replaced', 'origin_from_p8_empty_sections', 'section_replaced', 'data_is_region_buffer'):
-        if total.classes.get(lab, 0) < 20:
+        need = 3 if lab in ('section_replaced', 'data_is_region_buffer', 'origin_from_p8_empty_sections') else 20
+        if total.classes.get(lab, 0) < need:
             msgs.append('class %s seen only %d times' % (lab, total.classes.get(lab, 0)))
     return msgs
 
